@@ -50,7 +50,8 @@ PROPS = {
         "bundles": [], "kani": ["allocarith"], "replay": True,
         "assumptions": [A_KANI, "only the placement arithmetic is under contract: align_up, alloc_from_region, size_align"],
         "not_covered": ["BOUNDED only (replay/cq_driver, never counted as proved): every payload moved into a CQueue is returned bit for bit and dropped exactly once (fetch, cancel, queue drop with events pending), over all scripts up to the stated bound",
-                        "free-list functions find_region/add_free_region/allocate/deallocate (&'static mut nodes written through int->ptr casts: Verus rejects, Kani ran out of memory), LocalBox, node ownership, drop-exactly-once of payloads, CQueue::drop order: no history-level claim (non-overlap over all histories, recycling) is made"],
+                        "BOUNDED only (replay/alloc_driver on the verbatim alloc.rs, never counted as proved): the free-list functions allocate/deallocate/find_region/add_free_region never hand out memory that overlaps a live allocation, is misaligned or lies outside the owned pages, over random mixed-layout histories",
+                        "(not proved) free-list functions find_region/add_free_region/allocate/deallocate (&'static mut nodes written through int->ptr casts: Verus rejects, Kani ran out of memory), LocalBox, node ownership, drop-exactly-once of payloads, CQueue::drop order: no history-level claim (non-overlap over all histories, recycling) is made"],
     },
     "C16": {
         "bundles": ["chanbuf"], "kani": ["body"],
